@@ -19,8 +19,17 @@ from ..core import Check, Problem, register
 ACTS = ("none", "sigmoid", "tanh", "leaky_relu", "relu")
 ALPHAS = ("0", "3/10", "1", "5/2")
 LRS = ("1/2", "1/4", "1/8", "1/16", "1/10")
-REL = 2e-4          # relative tolerance (float32 arithmetic of the engine), DESIGN 2.1
-UNDERFLOW = 1e-15   # gradient tensors below this magnitude are in float32's squared-underflow range: not judged
+# Tolerances (review R2, measured on the unchanged tree, VERIF_SEED 0..2, 1500 cases = 6782 predictor / 6858 adversary
+# tensors + 2432 tensors of whole fits): the largest relative part any tensor needed on top of 4 ulp(W)/lr was 1.66e-7 of
+# |dLP/dW| + alpha*|dLA/dW| (update rule) and 1.59e-7 (orthogonality residual); adversary tensors never needed more than
+# 0.97 * (ulp(U)/lr + 2^-24*|dLA/dU|); whole fits never more than 0.94 * sum_steps(2^-24*lr*scale + 2^-24*|W|).
+# REL = 5e-6 is 30x the largest observed relative deviation (was 2e-4 = 1200x).
+REL = 5e-6          # relative tolerance (float32 arithmetic of the engine: ~84 unit roundoffs)
+# float32's squared-underflow range: below about 1e-19 the squares of the entries leave the normal range, torch.norm loses
+# precision and from ~1e-23 returns 0; then `tiny` dominates the normalisation and the update of the real code is off by
+# ~1/tiny (review finding R2-C16-underflow, corpus/C16/r2-adversary-gradient-underflow.json).  Tensors whose largest entry is
+# below UNDERFLOW (but not all zero) are NOT judged (tagged); 1e-18 keeps the largest square 85x above the smallest normal.
+UNDERFLOW = 1e-18   # was 1e-15
 
 
 # sha256 of the definitions (comments / blank lines stripped) of the two generated files the whole-step model is built
@@ -200,7 +209,7 @@ class CHECK(Check):
                   "sum-of-row-pair inner products coincide with Frobenius only for single rows (2x2 counter-witness); plain "
                   "SGD observation recovers the applied gradient; branch taken when dLA/dW = 0. Tie: real torch models trained "
                   "through partial_fit with plain SGD vs the compiled Lean model and an exact Fraction oracle on the same "
-                  "autograd gradients (rel. 2e-4). TensorFlow engine: lifted structurally only, NOT exercised (not installed). "
+                  "autograd gradients (rel. 5e-6). TensorFlow engine: lifted structurally only, NOT exercised (not installed). "
                   "Whole step (all tensors of both players, optimisers as parameters): every optimiser is handed the engine's rule / "
                   "dLA/dU (`whole_step_feeds_optimisers`), with SGD the parameters move along -lr*g and -lr*dLA/dU (`whole_step_sgd`), "
                   "the lifted PyTorch step is total and has the documented direction per tensor; statement structure of train_step "
@@ -221,12 +230,19 @@ class CHECK(Check):
             "players given as constructor callable / 'SGD' keyword / instance, lr in {1/2,1/4,1/8,1/16,1/10}; 1-2 measured "
             "batches of 1..16 pool rows after an optional warm-up step; every batch has the pool's type_of_target (else "
             "fairlearn rejects it). distinct = distinct case; non-trivial = some predictor tensor has dLA/dW != 0. "
-            "Gradient tensors with max |entry| < 1e-15 (float32 squared-underflow range) are not judged (tagged). "
+            "Gradient tensors with 0 < max |entry| < 1e-18 (float32 squared-underflow range) are not judged (tagged). "
+            "Not stated before (review R2): features are k/4 with |k| <= 8; continuous targets k/4 with |k| <= 12 and at least one "
+            "non-integer; module-mode parameters are initialised to k/16 with |k| <= 16; list-mode models ALWAYS get a warm-up step "
+            "(their modules exist only after the first call) and never an optimiser instance; the 'SGD' keyword forces lr_a = lr_p; "
+            "without warm-up the first measured batch is the whole pool (the first call must see every class); optional "
+            "`adv_scale` (corpus only) multiplies the adversary module's parameters. "
             "kind=fit (22% of the cases): whole fit(shuffle=False) on user-supplied torch modules (0-1 hidden layers) with plain SGD "
             "(lr 1/8, 1/10, 1/16), n in 4..12, batch_size in {-1, 1..n+1}, epochs in {-1,1,2,3}, max_iter in {-1,1..6}, at most 6 "
             "steps; gradients of every backward pass recorded by tensor hooks.")
     explanation = ("theorems over the Lean model Adversarial (all shapes); correspondence: parameters after partial_fit vs "
-                   "`adv.step torch` / `adv.sgd` of the compiled driver on exactly converted float32 gradients, rel 2e-4; "
+                   "`adv.step torch` / `adv.sgd` of the compiled driver on exactly converted float32 gradients, rel 5e-6 (+ 4 ulp(W)/lr); "
+                   "`adv.step torch` is also compared EXACTLY with the Fraction oracle (model != oracle: HARNESS-ERROR while the generated "
+                   "files have the pinned content, broken tie afterwards); "
                    "oracle: Fractions. The TensorFlow engine is covered only by the translator's structural lift of its "
                    "projection expression (reduce_sum(multiply(.,.)) -> frobenius, finfo(float32).tiny); it is not executed. "
                    "kind=fit: parameters after fit vs `advstep.fit` (fold of the whole-step model over the schedule interpreted from the "
@@ -243,7 +259,7 @@ class CHECK(Check):
                "copies / loop / step) and autograd dependencies by data flow (`.detach()` cuts); PyTorch accumulates into .grad")
     assumptions = ("plain SGD optimisers (no momentum / weight decay)", "float32 models on CPU, one thread",
                    "batches have the same type_of_target as the first call's data",
-                   "gradient tensors are not in float32's squared-underflow range (< 1e-15), else not judged")
+                   "gradient tensors are not in float32's squared-underflow range (0 < max|entry| < 1e-18), else not judged")
 
     # ------------------------------------------------------------------------------------------ generation
     def _hidden(self, rng, tier, bias_multi):
@@ -490,6 +506,11 @@ class CHECK(Check):
         if case["mode"] == "module":
             pm = _module(case["pred"], case["d"], ny, case["ykind"], case["seed"])
             am = _module(case["adv"], ny * (2 if eo else 1), ns, case["skind"], case["seed"] + 1)
+            if case.get("adv_scale"):
+                # corpus only: a nearly constant adversary -> dLA/dW tiny but non-zero
+                with torch.no_grad():
+                    for p in am.parameters():
+                        p.mul_(float(F(case["adv_scale"])))
             kw["predictor_model"], kw["adversary_model"] = pm, am
         else:
             kw["predictor_model"], kw["adversary_model"] = _list_model(case["pred"]), _list_model(case["adv"])
@@ -635,6 +656,11 @@ class CHECK(Check):
                     want_ref = self._mat(t["shape"], [proto.rat(x) for x in g])
                     if bb != 0 and m_ref != want_ref:
                         probs.append(Problem("harness", f"{where}: model reference update {m_ref[:80]} vs oracle {want_ref[:80]}"))
+                    # the engine model built from the LIFTED kinds vs the oracle, exactly (Fractions on both sides)
+                    want_step = self._mat(t["shape"], [proto.rat(w - lr_p * x) for w, x in zip(W0, g)])
+                    if m_step != want_step:
+                        probs.append(model_problem(f"{where}: `adv.step torch` (loop body as lifted) gives {str(m_step)[:80]}, "
+                                                   f"the documented update gives {want_step[:80]}"))
                 nan_after = any(v == "nan" for v in t["W1"])
                 if nan_after:
                     if bb == 0:
